@@ -25,7 +25,7 @@ ReadCall(name, r, raw, evt, scan, unavail) ==
                THEN [outcome |-> "float", formula |-> Formula(r.Linearisation, r.AnalogDataFormat, raw, r.M, r.B, r.BExp, r.RExp)]
                ELSE [outcome |-> "errclass", errclass |-> ReadOutcome(scan, unavail)])]
 ReadReact(r, j, raw, evt, scan, unavail) ==
-  [React0 EXCEPT !.datagrams = << Dg(SessPacket(S, LE32s(j), B(MsgRspBytes(129, 5, 0, 1, r.OwnerLUN, 45, 0, <<raw, FlagByte(evt, scan, unavail), 192>>)),
+  [React0 EXCEPT !.datagrams = << Dg(SessPacket(S, LE32s(j), MsgRspE(EchoS, 5, r.OwnerLUN, 45, 0, <<raw, FlagByte(evt, scan, unavail), 192>>),
                                                 [i \in 1..16 |-> (i + j) % 256]), [kind |-> "reading"]) >>]
 Script(id, steps, fam) == [id |-> id, prefix |-> "hs", info |-> [family |-> fam, insess |-> TRUE, integLen |-> S.integLen, bmcSid |-> S.bmcSid], steps |-> steps]
 
@@ -103,7 +103,7 @@ ReservedScripts ==
 \* C10 for a command addressed to a non-zero LUN: the responder answers from that LUN, first with node busy / timeout,
 \* then with the reading; the library must re-send the same request and return the first final answer
 BusyReact(r, j, cc) ==
-  [React0 EXCEPT !.datagrams = << Dg(SessPacket(S, LE32s(j), B(MsgRspBytes(129, 5, 0, 1, r.OwnerLUN, 45, cc, <<>>)), [i \in 1..16 |-> (i + j) % 256]), [kind |-> "busy"]) >>]
+  [React0 EXCEPT !.datagrams = << Dg(SessPacket(S, LE32s(j), MsgRspE(EchoS, 5, r.OwnerLUN, 45, cc, <<>>), [i \in 1..16 |-> (i + j) % 256]), [kind |-> "busy"]) >>]
 LunScripts ==
   { LET r == Rec(0, 0, 2, 1, 0, 0, lun, 50 + lun)
         one == ReadCall("l", r, 77, TRUE, TRUE, FALSE)
@@ -117,7 +117,7 @@ LunScripts ==
 \* there is no reading in such a response - an error, on a fresh reader and after good readings alike; the next good
 \* response is converted as usual
 EmptyReact(r, j, len) ==
-  [React0 EXCEPT !.datagrams = << Dg(SessPacket(S, LE32s(j), B(MsgRspBytes(129, 5, 0, 1, r.OwnerLUN, 45, 0, [i \in 1..len |-> 100 + i])), [i \in 1..16 |-> (i + j) % 256]), [kind |-> "reading-short"]) >>]
+  [React0 EXCEPT !.datagrams = << Dg(SessPacket(S, LE32s(j), MsgRspE(EchoS, 5, r.OwnerLUN, 45, 0, [i \in 1..len |-> 100 + i]), [i \in 1..16 |-> (i + j) % 256]), [kind |-> "reading-short"]) >>]
 EmptyScripts ==
   { LET r == Rec(lin, 0, 2, 5, 0, 0, 0, 33 + lin)
         bad == [ReadCall("e", r, 0, TRUE, TRUE, FALSE) EXCEPT !.exp = [prop |-> "C15", rslun |-> 0, outcome |-> "errclass", errclass |-> "other", reqs |-> @.reqs]]
